@@ -46,6 +46,7 @@ TYPE_REPS = ("0", "3", "4", "9", "33", "-1", "", "a")
 ODD = (
     "256", "-1", "-0", "5", "2", "", "a", "1a", "1.0", "0x1", "1e1", "--1", "true", " 1", "1 ", "01", "+1", "1_0",
     "١", "99999999999999999999", "-99999999999999999999", "255", "254", "0", "\t3", "None", "1;1",
+    "\ufeff1", "1\ufeff", "\ufeff", "\u200b1", "1\u00a0", "\x001", "e\u0301", "\u037e",
     "{}", "{0}", "{input}", "{", "}", "{input.x}", "%s", "%(input)s", "%d", "%", "${x}", "\\x41", "{\"temp\":21}",
     "0255", "+255", "2_55", " 255", "00", "+0", "0254", "+3", "03", "+4", "004", "²", "¹", "①", "1²", "٣", "٢٥٥", "9" * 4400, "-" + "9" * 4400, "１",
 )
@@ -130,6 +131,15 @@ def enumerate_cases(tier: str):
             for head in ("0;255;3;0;9;", "12;3;1;1;47;", "7;255;0;0;17;"):
                 yield {"version": version, "line": head + inner + "\n"}
                 yield {"version": version, "line": head + inner}
+        # a byte-order mark / zero-width / NUL in front of an otherwise well-formed line, on every path
+        for lead in ("\ufeff", "\u200b", "\x00", " ", "\ufeff\ufeff"):
+            for rest in ("1;255;3;0;9;hello", "12;3;1;1;47;x", "255;255;3;0;3;"):
+                yield {"version": version, "line": lead + rest + "\n", "stream": True}
+                yield {"version": version, "line": lead + rest + "\n", "mqtt": True}
+        # characters with canonical decompositions (a decoder that normalises changes the payload - or invents separators: U+037E -> ';')
+        for text in ("cafe\u0301", "A\u030a", "\u2126", "\u212b", "\u037e", "a\u037eb", "\ufb01", "\u00bd", "\uff11"):
+            yield {"version": version, "line": "0;255;3;0;9;" + text + "\n", "stream": True}
+            yield {"version": version, "line": "0\u037e255\u037e3\u037e0\u037e9\u037e" + text + "\n"}
         # characters str.splitlines splits on, inside a payload, on every path a line can take (direct, byte stream, MQTT twice on one topic)
         for inner in ("a\x0bb", "a\x0cb", "a\x1cb", "a\x1db", "a\x1eb", "a\x85b", "a\u2028b", "a\u2029b", "a\rb", "\x1c", "\x0b;x", "plain", "a;b"):
             for head in ("0;255;3;0;9;", "12;3;1;1;47;"):
